@@ -278,6 +278,7 @@ func runC14(c *Ctx) {
 	} else {
 		c.fail("collect-ctx", f.Pos(), "no collecting select")
 	}
+	checkNoSynchronousDetachedExchange(c, relForward)
 
 	// ---------------------------------------------------------------- R5
 	c.rule("R5", "acceptance: early only for NOERROR/NXDOMAIN, anything at the last iteration, failures skipped", 2)
